@@ -32,7 +32,7 @@ type StreamNet struct {
 
 // NewStreamNet creates an empty network.
 func NewStreamNet() *StreamNet {
-	return &StreamNet{listeners: map[string]*StreamListener{}, nextPort: 50000, BufSize: 256 * 1024}
+	return &StreamNet{listeners: map[string]*StreamListener{}, nextPort: 50000, BufSize: 4 * 1024 * 1024}
 }
 
 type pipe struct {
